@@ -14,6 +14,7 @@ EXPLANATION = (
     "(R-C02-cancel-safe) in next_request (a select! arm) no await point is reachable after pending.pop_front(), so a cancelled poll cannot drop a carried-over request; "
     "(R-C02-reason-class) the v5 ack handlers take their refusal path only for reason codes outside the MQTT 5 success class of the packet type; "
     "(R-C02-release-roles) outgoing_pub / outgoing_rel are emptied only by the PUBACK/PUBREC/PUBCOMP handlers and clean(). "
+    "R-C02-drain also demands a complete walk: no narrowing adapter (take/skip/step_by/filter/sub-slice) between a holder field and the drained requests, and both halves of a split used. "
     "NOT decided: loss at specific crash points of the byte stream, framed-buffer contents at failure, broker-side session semantics.")
 ASSUMPTIONS = ["rustc MIR construction is correct"]
 TECHNIQUE = "static analysis: type-driven field inventory + provenance into the drained requests, sibling effect-set comparison, must-pass rules, who-may-write"
